@@ -141,6 +141,14 @@ def check(run):
             run.check(a0 in ('self.cs*1j**self.ps', '1j**self.ps*self.cs'), 'R6.reduce', rd, ag[0], 'phases move into the coefficients as cs * i^ps before merging (found %s)' % a0)
             run.check(norm(ag[0].args[1]) == norm(uq[0].targets[0].elts[1]) if uq and isinstance(uq[0].targets[0], ast.Tuple) else False, 'R6.reduce', rd, ag[0], 'terms are merged by the inverse index of unique')
         mk = [s for s, _ in walk(rd.node) if isinstance(s, ast.Assign) and isinstance(s.value, ast.Compare)]
+        if not mk:
+            # the comparison may sit inside a call (numpy.flatnonzero(numpy.abs(cs) > tol)): the statement is kept for the
+            # selection name, its comparison is what gets evaluated
+            for s_, _ in walk(rd.node):
+                if isinstance(s_, ast.Assign) and isinstance(s_.targets[0], ast.Name):
+                    cmps = [c_ for c_ in ast.walk(s_.value) if isinstance(c_, ast.Compare) and rd.posparams[1] in {x.id for x in ast.walk(c_) if isinstance(x, ast.Name)}]
+                    if len(cmps) == 1:
+                        mk = [ast.copy_location(ast.Assign(targets=s_.targets, value=cmps[0]), s_)]
         ok = len(mk) == 1
         if ok:
             try:
@@ -175,7 +183,9 @@ def check(run):
         if len(rets) == 1 and mk:
             mname = norm(mk[0].targets[0])
             txt = norm(rets[0]).replace(' ', '')
-            ok_ret = txt == 'PauliPolynomial(gs[%s]).set_cs(cs[%s])' % (mname, mname)
+            ok_ret = txt in ('PauliPolynomial(gs[%s]).set_cs(cs[%s])' % (mname, mname),
+                             'PauliPolynomial(numpy.take(gs,%s,axis=0)).set_cs(numpy.take(cs,%s))' % (mname, mname),
+                             'PauliPolynomial(numpy.take(gs,%s,axis=0)).set_cs(numpy.take(cs,%s,axis=0))' % (mname, mname))
             if not ok_ret and isinstance(rets[0], ast.Name):
                 # the same object built in steps: X = PauliPolynomial(gs[m]) ; X.cs = cs[m] (or X.set_cs(cs[m])) ; return X
                 X = rets[0].id
